@@ -12,9 +12,10 @@ except Exception:
     pass
 baseline = json.load(open("/root/.vp/BASELINE.json"))["cmd"] if os.path.exists("/root/.vp/BASELINE.json") else "go test ./..."
 checks, na = [], []
+claimed = set(json.load(open(os.path.join(ROOT, "claimed.json"))))
 for pid in allp:
     c = props.get(pid)
-    if not c or c.get("not_applicable"):
+    if not c or c.get("not_applicable") or pid not in claimed:
         na.append({"property_id": pid, "reason": (c or {}).get("not_applicable", "check not built yet in this development (model and driver pending); not claimed")})
         continue
     checks.append({
